@@ -67,6 +67,20 @@ func (o *c06Outer) PtrM() int64         { return o.A + 2 }
 func (o c06Outer) Add(x int64) int64    { return o.A + x }
 func (i c06Inner) Double() int64        { return i.Leaf * 2 }
 
+// named non-struct types with pointer-receiver methods
+type c06NamedSlice []int64
+
+func (s *c06NamedSlice) PFirst() int64 { return (*s)[0] }
+func (s c06NamedSlice) VLast() int64   { return s[len(s)-1] }
+
+type c06NamedInt int64
+
+func (n *c06NamedInt) PVal() int64 { return int64(*n) + 1 }
+
+type c06NamedMap map[string]int64
+
+func (m *c06NamedMap) PGet() int64 { return (*m)["k"] }
+
 // c06Access: access paths with the Go expression that reads the same datum.
 var c06Access = []struct {
 	src  string
@@ -110,6 +124,11 @@ var c06Access = []struct {
 	{"deep4.Z3 * z + deep4.Y3", func(d *c06Outer) int64 { return 12 }},
 	{"deep4.X2 * z + deep4.Y2 * z + deep4.X1 * z + deep4.X0 * z + deep4.Z3", func(d *c06Outer) int64 { return 13 }},
 	{"deep4.X2", func(d *c06Outer) int64 { return 21 }},
+	{"ns.PFirst()", func(d *c06Outer) int64 { return 7 }},
+	{"ns.VLast()", func(d *c06Outer) int64 { return 9 }},
+	{"ni.PVal()", func(d *c06Outer) int64 { return 42 }},
+	{"nm.PGet()", func(d *c06Outer) int64 { return 5 }},
+	{"hold.NS.PFirst()", func(d *c06Outer) int64 { return 7 }},
 	{"sh.Name", func(d *c06Outer) int64 { return 100 }},
 	{"sh.Only * z + sh.Name", func(d *c06Outer) int64 { return 100 }},
 	{"sh.Only", func(d *c06Outer) int64 { return 300 }},
@@ -155,6 +174,13 @@ func H_C06_access() {
 	vars.Set("z", int64(0))
 	vars.Set("deep", C06L1{C06L2: C06L2{C06L3: C06L3{11, 12, 13}, X2: 21, Y2: 22}, X1: 31})
 	vars.Set("deep4", C06L0{C06L1: C06L1{C06L2: C06L2{C06L3: C06L3{11, 12, 13}, X2: 21, Y2: 22}, X1: 31}, X0: 41})
+	ns := c06NamedSlice{7, 8, 9}
+	ni := c06NamedInt(41)
+	nm := c06NamedMap{"k": 5}
+	vars.Set("ns", &ns)
+	vars.Set("ni", &ni)
+	vars.Set("nm", &nm)
+	vars.Set("hold", &struct{ NS c06NamedSlice }{ns})
 	vars.Set("sh", c06Shadow{Name: 100, C06Shadowed: C06Shadowed{Name: 200, Only: 300}})
 	vars.Set("sh2", c06Shadow2{Name: 100, C06Shadowed: C06Shadowed{Name: 200, Only: 300}})
 	vars.SetFunc("cap", c04Capture(&got))
@@ -280,13 +306,16 @@ func H_C06_slice() {
 //
 //gosym:reach error,absent
 func H_C06_failures() {
-	bad := []string{"d.hidden", "d.Nope", "d.In.Nope", "d.PIn.Leaf", "d.If.Leaf", "d.ViaPtr", "d.Nope()", `d.List["x"]`, "d.A.B", "d.SMap.k.z", "np.A", "d.IMap.k"}
+	bad := []string{"d.hidden", "d.Nope", "d.In.Nope", "d.PIn.Leaf", "d.If.Leaf", "d.ViaPtr", "d.Nope()", `d.List["x"]`, "d.A.B", "d.SMap.k.z", "np.A", "d.IMap.k",
+		"mm.nobody.leaf", "mm.nobody.leaf.more", "d.Nested.zz.Leaf", "v.hidden"}
 	c := ndChoice("case", len(bad)+2)
 	d := &c06Outer{A: 1, SMap: map[string]int64{"k": 1}, IMap: map[int]int64{7: 1}, List: []int64{1}}
 	var np *c06Outer
 	vars := make(VarMap)
 	vars.Set("d", d)
 	vars.Set("np", np)
+	vars.Set("v", *d)
+	vars.Set("mm", map[string]map[string]string{"present": {"leaf": "x"}})
 	if c >= len(bad) {
 		srcs := []string{`[{{ d.SMap.absent }}]`, `[{{ d.IMap[8] }}]`}
 		set := hxSet(nil, "/m.jet", srcs[c-len(bad)])
@@ -300,4 +329,7 @@ func H_C06_failures() {
 	_, err := hxExec(set, "/m.jet", vars, nil)
 	vfReach("error")
 	vfAssert(err != nil, "the invalid access is an error")
+	// ... and stays one: a second evaluation (struct field cache now warm) fails as well
+	_, err2 := hxExec(set, "/m.jet", vars, nil)
+	vfAssert(err2 != nil, "the invalid access is still an error on the second evaluation")
 }
